@@ -173,6 +173,53 @@ Fixpoint renum_l (l : forest) (c : nat) : forest * nat :=
               let '(r', c2) := renum_l r c1 in (t' :: r', c2)
   end.
 
+(* ---- clone that may fail.  The copy is built in pre-order; a node whose value cannot be
+   cloned, or the [k]-th allocation of the call, ends it: no copy, and the ids consumed
+   so far have been given back.  Result: the copy (if any), the next id, the oracle. ---- *)
+Fixpoint sclone_t (t : tree) (c k : nat) : option tree * nat * nat :=
+  match t with
+  | T _ n v kids =>
+    if unclonable v then (None, c, k)
+    else
+      let '(k, f) := tick k in
+      if f then (None, c, k)
+      else
+        let '(k, f) := if name_alloc n then tick k else (k, false) in
+        if f then (None, S c, k)
+        else
+          let '(kids', c', k') :=
+            (fix cl (l : forest) (c k : nat) {struct l} : option forest * nat * nat :=
+               match l with
+               | [] => (Some [], c, k)
+               | t' :: r =>
+                 match sclone_t t' c k with
+                 | (Some t'', c1, k1) =>
+                   match cl r c1 k1 with
+                   | (Some r', c2, k2) => (Some (t'' :: r'), c2, k2)
+                   | (None, c2, k2) => (None, c2, k2)
+                   end
+                 | (None, c1, k1) => (None, c1, k1)
+                 end
+               end) kids (S c) k in
+          match kids' with
+          | Some kk => (Some (T c n v kk), c', k')
+          | None => (None, c', k')
+          end
+  end.
+Fixpoint sclone_l (l : forest) (c k : nat) : option forest * nat * nat :=
+  match l with
+  | [] => (Some [], c, k)
+  | t :: r =>
+    match sclone_t t c k with
+    | (Some t', c1, k1) =>
+      match sclone_l r c1 k1 with
+      | (Some r', c2, k2) => (Some (t' :: r'), c2, k2)
+      | (None, c2, k2) => (None, c2, k2)
+      end
+    | (None, c1, k1) => (None, c1, k1)
+    end
+  end.
+
 (* ---- merge (node_move.c): move the trees of [src] whose name the target list
    lacks to its end; for a name that exists, merge the children instead ---- *)
 Fixpoint split_name (nm : nat) (pre l : forest) : option (forest * tree * forest) :=
@@ -266,6 +313,60 @@ Fixpoint strav (o : order) (fl : nat) (t : tree) : list nat :=
     end
   end.
 
+(* the same with the depth the handler is told *)
+Definition svis (fl : nat) (d : nat) (t : tree) : list (nat * nat) :=
+  if (match tkids t with [] => Nat.odd fl | _ :: _ => 2 <=? fl end) then [(tid t, d)] else [].
+
+Fixpoint stravd (o : order) (fl : nat) (d : nat) (t : tree) : list (nat * nat) :=
+  match t with
+  | T i _ _ k =>
+    let me := svis fl d t in
+    match o with
+    | PreOrder => me ++ flat_map (stravd o fl (S d)) k
+    | PostOrder => flat_map (stravd o fl (S d)) k ++ me
+    | InOrder => match k with
+                 | [] => me
+                 | c :: r => stravd o fl (S d) c ++ me ++ flat_map (stravd o fl (S d)) r
+                 end
+    end
+  end.
+
+(* level order: level 0 is the list itself, level u+1 the children of level u in order *)
+Fixpoint level (u : nat) (l : forest) : forest :=
+  match u with 0 => l | S u' => flat_map tkids (level u' l) end.
+
+(* number of nodes *)
+Fixpoint tsize (t : tree) : nat := match t with T _ _ _ k => S (list_sum (map tsize k)) end.
+Definition fsize (f : forest) : nat := list_sum (map tsize f).
+
+(* every level of [l] (the levels beyond its height are empty) *)
+Definition slevel (fl : nat) (l : forest) : list (nat * nat) :=
+  flat_map (fun u => flat_map (svis fl u) (level u l)) (seq 0 (fsize l)).
+
+Definition swalk (o : option order) (fl : nat) (l : forest) : list (nat * nat) :=
+  match o with
+  | Some o => flat_map (stravd o fl 0) l
+  | None => slevel fl l
+  end.
+
+(* the handler answers non-zero at its k-th call (0: never): calls made, node returned *)
+Definition cutk (k : nat) (full : list (nat * nat)) : list (nat * nat) * ptr :=
+  match k with
+  | 0 => (full, None)
+  | S k' => match nth_error full k' with
+            | Some (x, _) => (firstn k full, Some x)
+            | None => (full, None)
+            end
+  end.
+
+(* the index (in l1 ++ tx :: l2) mpt_node_locate(x, pos, name) names: pos > 0 the pos-th node of
+   that name from x on, pos < 0 the (-pos)-th before x, 0 the last of the whole list *)
+Definition locate_index (l1 : forest) (tx : tree) (l2 : forest) (nm : nat) (pos : Z) : option nat :=
+  if (pos =? 0)%Z then
+    (match matches nm 0 (l1 ++ tx :: l2) with [] => None | m :: ms => Some (last (m :: ms) 0) end)
+  else if (0 <? pos)%Z then nth_error (matches nm (length l1) (tx :: l2)) (Z.to_nat pos - 1)
+  else nth_error (rev (matches nm 0 l1)) (Z.to_nat (- pos) - 1).
+
 (* ---- the specification of one step ---- *)
 Record sstate := mkS { lists : state; scount : nat; sfreed : list nat }.
 
@@ -291,6 +392,26 @@ Definition link_with (s : sstate) (p x : nat) (res : out)
     | None => (s, OutX)
     end
   | None => (s, OutX)
+  end.
+
+(* a clone that succeeds adds its copy as a new top-level list; one that fails leaves
+   the forest alone, the ids it consumed are freed *)
+Definition clone_result (s : sstate) (r : option forest * nat * nat) : sstate * out :=
+  match r with
+  | (Some l', c', _) => (mkS (lists s ++ [l']) c' (sfreed s), OutP (Some (scount s)))
+  | (None, c', _) => (mkS (lists s) c' (seq (scount s) (c' - scount s) ++ sfreed s), OutP None)
+  end.
+
+(* entry points called with a NULL node change nothing and answer NULL / -1 / 0 / the node *)
+Definition snull (s : sstate) (c : nullcall) : sstate * out :=
+  match c with
+  | NAdd _ _ x => if slive s x then (s, OutP (Some x)) else (s, OutX)
+  | NAddN _ f _ => if slive s f then (s, OutP None) else (s, OutX)
+  | NInsN _ p _ => if slive s p then (s, OutZ (-1)%Z) else (s, OutX)
+  | NMove p => if slive s p then (s, OutZ 0%Z) else (s, OutX)
+  | NTrav _ _ => (s, OutW [] None)
+  | NTravH x => if slive s x then (s, OutW [] None) else (s, OutX)
+  | _ => (s, OutP None)
   end.
 
 Definition sstep (s : sstate) (o : op) : sstate * out :=
@@ -351,25 +472,19 @@ Definition sstep (s : sstate) (o : op) : sstate * out :=
       end
     | None => (s, OutX)
     end
-  | OClone x =>
+  | OClone x k =>
     match focus x (lists s) with
-    | Some (_, _, tx, _) =>
-      (mkS (lists s ++ [[T (scount s) (tname tx) (tval tx) []]]) (S (scount s)) (sfreed s),
-       OutP (Some (scount s)))
+    | Some (_, _, tx, _) => clone_result s (sclone_l [T (tid tx) (tname tx) (tval tx) []] (scount s) k)
     | None => (s, OutX)
     end
-  | OLClone x =>
+  | OLClone x k =>
     match focus x (lists s) with
-    | Some (_, _, tx, l2) =>
-      let '(l', c') := renum_l (tx :: l2) (scount s) in
-      (mkS (lists s ++ [l']) c' (sfreed s), OutP (Some (scount s)))
+    | Some (_, _, tx, l2) => clone_result s (sclone_l (tx :: l2) (scount s) k)
     | None => (s, OutX)
     end
-  | OTClone x =>
+  | OTClone x k =>
     match focus x (lists s) with
-    | Some (_, _, tx, _) =>
-      let '(t', c') := renum_t tx (scount s) in
-      (mkS (lists s ++ [[t']]) c' (sfreed s), OutP (Some (scount s)))
+    | Some (_, _, tx, _) => clone_result s (sclone_l [tx] (scount s) k)
     | None => (s, OutX)
     end
   | OClear x =>
@@ -455,6 +570,24 @@ Definition sstep (s : sstate) (o : op) : sstate * out :=
                 else option_map tid (find (fun t => tname t =? nm) (tx :: l2))))
     | None => (s, OutX)
     end
+  | OLocate x pos q =>
+    match focus x (lists s) with
+    | Some (_, l1, tx, l2) =>
+      (s, OutP (match q with
+                | None => None
+                | Some nm => match locate_index l1 tx l2 nm pos with
+                             | Some i => option_map tid (nth_error (l1 ++ tx :: l2) i)
+                             | None => None
+                             end
+                end))
+    | None => (s, OutX)
+    end
+  | OWalk o fl x k =>
+    match focus x (lists s) with
+    | Some (_, _, tx, l2) => let '(l, r) := cutk k (swalk o fl (tx :: l2)) in (s, OutW l r)
+    | None => (s, OutX)
+    end
+  | ONull c => snull s c
   | OEnd => (mkS [] (scount s) (ids_st (lists s) ++ sfreed s), OutZ 0%Z)
   end.
 
